@@ -568,6 +568,13 @@ class IH5Group(IH5InnerNode):
         if nodes[-1]._gpath == path:
             raise ValueError("Cannot create group, it already exists!")
 
+        # create missing parent groups one by one (each as a proper "overwrite" group),
+        # otherwise they would be virtual nodes on top of possible deletion markers
+        segs = [seg for seg in nodes[-1]._rel_path(path).split("/") if seg]
+        if len(segs) > 1:
+            parent = cast(IH5Group, nodes[-1]).create_group(segs[0])
+            return parent.create_group("/".join(segs[1:]))
+
         # remove "deleted" marker, if set at current path in current patch container
         if path in self._files[-1] and _node_is_del_mark(self._files[-1][path]):
             del self._files[-1][path]
